@@ -16,7 +16,7 @@ MANIFEST = dict(
          "so the solver itself produces every permutation, omission, duplication, addition and type confusion. Reference written from the statement: strict + (duplicate or id set != call id set) -> IdentityError; "
          "non-response body -> DeserializationError; accepted responses are related to the request with the same id and positional / tuple results follow CALL order; errors are raised.",
     ref='5 C08',
-    note="Request ids of batches are the concrete ids 1..n of the default sequential generator; response ids are unbounded symbolic ints or strings of length <= 2. "
+    note="Request ids of batches are the concrete ids 1..n of the default sequential generator, 0..n-1 (a falsy id) or the strings '', 'a', ..; the batch request is built by the constructor, by append or by extend onto a non-empty batch; response ids are unbounded symbolic ints or strings of length <= 2. "
          "A surplus response with a null id is accepted either way (the statement is silent).",
 )
 BOUNDS = {
@@ -45,7 +45,7 @@ def obligations(tier):
             obs.append({'h': 'single', 'rel': rel, 'payload': payload, 'ridt': ridt, 'strict': strict, 'kind': kind})
         for payload in ('result', 'error'):
             obs.append({'h': 'call', 'payload': payload, 'strict': strict, 'kind': kind})
-        for k in ('null', 'bool', 'int', 'float', 'str', 'list0', 'list1', 'dict0', 'neither', 'both', 'badversion', 'noversion'):
+        for k in ('null', 'bool', 'int', 'float', 'str', 'list0', 'list1', 'dict0', 'neither', 'both', 'badversion', 'noversion', 'boolid', 'boolid_err', 'floatid', 'listid'):
             for batch in (False, True):
                 if batch and k == 'list0':
                     continue      # an empty array is a (degenerate) response array: handled by the batch harness
@@ -200,6 +200,12 @@ def _bad_body(env, k):
         return {'jsonrpc': v, 'id': 1, 'result': 1}
     if k == 'noversion':
         return {'id': 1, 'result': 1}
+    if k in ('boolid', 'floatid', 'listid', 'boolid_err'):
+        # an id of the wrong JSON type - in particular true, which Python considers equal to the request id 1
+        idv = {'boolid': True, 'boolid_err': True, 'floatid': 1.0, 'listid': [1]}[k]
+        if k == 'boolid_err':
+            return {'jsonrpc': '2.0', 'id': idv, 'error': {'code': env.int('code'), 'message': 'm'}}
+        return {'jsonrpc': '2.0', 'id': idv, 'result': env.int('res')}
     return build(env, k, 'body', 2)
 
 
@@ -207,7 +213,7 @@ def h_nonresponse(ob):
     def run(env):
         import pjrpc
         body = _bad_body(env, ob['k'])
-        if ob['batch'] and ob['k'] in ('neither', 'both', 'badversion', 'noversion'):
+        if ob['batch'] and ob['k'] in ('neither', 'both', 'badversion', 'noversion', 'boolid', 'floatid', 'listid', 'boolid_err'):
             body = [body]
         from vlib.client import Raw
         wire = Wire(env)
